@@ -54,6 +54,7 @@ def run(ctx):
     s4(ctx)
     s5(ctx, taint, off)
     s2h(ctx)
+    s7(ctx, taint, off)
 
 
 # ---------------------------------------------------------------------------------- taint
@@ -644,3 +645,73 @@ EXPLANATION = ("Static taint-to-sink analysis with sanitizer facts over everythi
                "kinds on the anchored code -- not absence of all memory errors, not termination.")
 ASSUMPTIONS = ["integer wrap-around is not modelled by the linear prover (sink kind S7 is not claimed)", "std::map::operator[] and iterators are not sinks",
                "exceptions listed in S2_EXCEPTIONS were triaged by reading", "the second layer (*Parse* functions working on decoded packet contexts) is reported, not claimed"]
+
+
+# ---------------------------------------------------------------------------------- S7
+def s7(ctx, taint, off):
+    """arithmetic on untrusted integers in a type narrower than size_t must not wrap: the exact
+    (mathematical) interval of the result, computed from octet ranges, constants and the constant
+    bounds established by guards on the path, has to fit the type the operation is carried out in.
+    `int` results are held to 32 bits (the decoders build 32-bit values with (octet << 24) in int and
+    convert to unsigned at once; only a result that needs more than 32 bits is a wrap)."""
+    from .. import ranges
+    from ..sym import NARROW
+    prog = ctx.prog
+    n = 0
+    nu = 0
+    for k, f in prog.funcs.items():
+        if not f.get('body') or k not in off:
+            continue
+        tp = taint.get(k, set())
+        short = f['q'].split('::')[-1]
+        is_dec = 'RFC4880' in f['file'] and DECODER_RE.search(short)
+        if not is_dec and not tp and not (f['ret'] == 'bool' and any('istream' in p['t'] for p in f['params'])):
+            continue
+        a = ctx.analysis(f)
+        T = a.T
+        occ = {}
+        for nid, ev in sorted(a.all_events('narrow'), key=lambda x: (x[1][5], x[0])):
+            _, op, x, y, ty, line = ev
+            if op == '-':
+                continue          # differences: see the relational rule below
+            if not (is_tainted(a, x, tp) or is_tainted(a, y, tp)):
+                continue
+            st = a.instate[nid]
+            r = ranges.interval(a, a.arith(op, x, y), st)
+            lo, hi = NARROW[ty]
+            if ty == 'int':
+                hi = 2 ** 32 - 1
+            key0 = 'S7:%s:%s:%s' % (f['q'], op, T.show(a.arith(op, x, y), 2)[:50])
+            occ[key0] = occ.get(key0, 0) + 1
+            key = '%s#%d' % (key0, occ[key0])
+            n += 1
+            if r is not None and r[0] >= lo and r[1] <= hi:
+                ctx.ok('S7', key, '%s arithmetic on untrusted data stays within [%d, %d]' % (ty, r[0], r[1]), f, line=line)
+            else:
+                ctx.bad('S7', key, 'arithmetic on untrusted data is carried out in %s but its exact value ranges over %s: it can wrap around, and a '
+                        'size check or offset computed from it no longer bounds the access' % (ty, 'an unbounded range' if r is None else '[%s, %s]' % r), f, line=line)
+        for nid, ev in sorted(a.all_events('usub'), key=lambda x: (x[1][4], x[0])):
+            _, x, y, ty, line = ev
+            if not (is_tainted(a, x, tp) or is_tainted(a, y, tp)):
+                continue
+            st = a.instate[nid]
+            key0 = 'S7:%s:-:%s' % (f['q'], T.show(a.arith('-', x, y), 2)[:50])
+            occ[key0] = occ.get(key0, 0) + 1
+            key = '%s#%d' % (key0, occ[key0])
+            nu += 1
+            cons = bounds.constraints(a, st)
+            G = bounds.sub(bounds.upoly(a, x), bounds.upoly(a, y))
+            cons = cons + bounds.atom_constraints(a, bounds.atoms_of([G] + cons))
+            okv = bounds.prove_ge0(G, cons)
+            if not okv:
+                r = ranges.interval(a, a.arith('-', x, y), st)
+                okv = r is not None and r[0] >= 0
+            if okv:
+                ctx.ok('S7', key, 'unsigned difference on untrusted data: minuend >= subtrahend follows from the guards on the path', f, line=line)
+            else:
+                ctx.bad('S7', key, 'unsigned difference %s - %s on untrusted data with no guard establishing that it is non-negative: it wraps to a huge '
+                        'value that then serves as a length, bound or allocation size' % (T.show(x, 3), T.show(y, 3)), f, line=line)
+    ctx.info['S7_sites'] = n
+    ctx.info['S7_unsigned_differences'] = nu
+    ctx.floor('S7', n, 90)
+    ctx.floor('S7', nu, 45)
